@@ -339,9 +339,8 @@ func (r *recorder) add(ev event) int {
 
 func (r *recorder) hook(ev scheduler.VerifEvent) {
 	// events of another scheduler (a straggler of an earlier execution) are not ours
-	if ev.Kind == scheduler.VerifNewSched {
-		atomic.CompareAndSwapUintptr(&r.sched, 0, ev.Sched)
-	}
+	// (the first event of an execution fixes its scheduler: workers may report before New does)
+	atomic.CompareAndSwapUintptr(&r.sched, 0, ev.Sched)
 	if atomic.LoadUintptr(&r.sched) != ev.Sched {
 		return
 	}
